@@ -4,7 +4,12 @@ set -e
 cd "$(dirname "$0")"
 export CARGO_NET_OFFLINE=true
 mkdir -p work evidence
-( cd lean && lake build SfsModel sfsmodel $(ls SfsModel/Props/*.lean | sed 's#/#.#g; s#\.lean$##' | tr '\n' ' ') )
+# the theorem modules the registered checks use (lib/props.py); work-in-progress files under Props/ are not part of the setup
+mods=$(python3 -c "
+import sys; sys.path.insert(0, 'lib')
+from props import PROPS
+print(' '.join(sorted({m for p, c in PROPS.items() for m in c.get('modules', ['SfsModel.Props.' + p])})))")
+( cd lean && lake build SfsModel sfsmodel $mods )
 cargo build --offline --manifest-path ${SFS_REPO:-/repo}/Cargo.toml -p sfs-cli --target-dir work/target-repo
 [ -f harness/Cargo.lock ] || cp ${SFS_REPO:-/repo}/Cargo.lock harness/Cargo.lock
 cargo build --offline --manifest-path harness/Cargo.toml --target-dir work/target-harness
